@@ -60,6 +60,23 @@ struct OffsetArgs {
 };
 struct OffsetResult { int error = 0; Paths closed; TreeNode tree; std::vector<ZLog> zlog; };
 struct RectArgs { int64_t l, t, r, b; Paths paths; bool lines = false; };
+// C11 probes of the argument-validation paths
+enum ProbeKind { P_ClipperD_Subject, P_ClipperD_Clip, P_ClipperD_Open, P_BooleanOpD, P_UnionD, P_InflatePathsD, P_RectClipD,
+                 P_RectClipLinesD, P_TrimCollinearD, P_ScalePath, P_MakePath, P_MakePathD, P_BooleanOpTreeD, P_NKINDS };
+struct ProbeArgs {
+  int kind = 0, precision = 2;
+  PathsD paths;            // non-empty input paths
+  double scale = 1;        // for P_ScalePath
+  std::vector<int64_t> list;  // for P_MakePath / P_MakePathD
+  double delta = 1;
+  double l = -1e9, t = -1e9, r = 1e9, b = 1e9;  // rectangle
+};
+struct ProbeResult {
+  bool threw = false;
+  bool hasErrorCode = false;  // the call has an error-code channel
+  int error = 0;
+  size_t outPaths = 0, outPts = 0;
+};
 }  // namespace shim
 
 #define VERIF_DECL_SHIM(ns)                                                   \
@@ -70,6 +87,7 @@ struct RectArgs { int64_t l, t, r, b; Paths paths; bool lines = false; };
   shim::Paths rectclip(const shim::RectArgs&);                                \
   bool segIntersect(const shim::Pt& a, const shim::Pt& b, const shim::Pt& c,  \
                     const shim::Pt& d, shim::Pt& ip);                         \
+  shim::ProbeResult probe(const shim::ProbeArgs&);                            \
   const char* variantName();                                                  \
   }
 
